@@ -418,7 +418,7 @@ def _(inp):
 @t.scope
 def _(tier, rng):
     for attr in list(LOW) + ['OTHER_NAME']:
-        for v in (-1, 0, 1, 4, 5, 9, 10, 11, 1000):
+        for v in (-1, 0, 1, 4, 5, 9, 10, 11, 1000, 1001, 3000, 2 ** 31, 10 ** 12):
             yield dict(attr=attr, value=v, value_is_int=True)
         yield dict(attr=attr, value=0, value_is_int=False)
 
